@@ -40,7 +40,8 @@ var safeRunes = [][2]rune{
 }
 
 func jsonNeedsEscape(c rune) bool {
-	return c < 0x20 || c == '"' || c == '\\' || c == '<' || c == '>' || c == '&' || c == 0x2028 || c == 0x2029 || c == 0x7f
+	// & < > need no escape in JSON (Go's encoder escapes them only in its HTML-safe mode): they are in the class
+	return c < 0x20 || c == '"' || c == '\\' || c == 0x2028 || c == 0x2029 || c == 0x7f
 }
 
 // TextSafe: arbitrary Unicode that JSON carries without escapes; no leading/trailing white space.
